@@ -100,6 +100,18 @@ type state struct {
 	recovered   bool
 	nowTerm     string
 	ghostCnt    map[string]int
+	// universally valid facts (clauses over skolem variables, proved for an arbitrary value): instantiated lazily
+	univ     []*univFact
+	univDone map[string]bool
+}
+
+// univFact is a clause over skolem variables that has been established for arbitrary values of them (a precondition,
+// or a loop invariant assumed at a loop head); eval re-evaluates it, in the state it was assumed in, under the current
+// skolem override and returns the instance after copying its definitional facts into cur.
+type univFact struct {
+	id   string
+	vars []string
+	eval func(cur *state) string
 }
 
 func newState() *state {
@@ -120,6 +132,13 @@ func (s *state) clone() *state {
 	}
 	for k, v := range s.ghostCnt {
 		n.ghostCnt[k] = v
+	}
+	n.univ = append([]*univFact(nil), s.univ...)
+	if len(s.univDone) > 0 {
+		n.univDone = make(map[string]bool, len(s.univDone))
+		for k := range s.univDone {
+			n.univDone[k] = true
+		}
 	}
 	return n
 }
@@ -172,6 +191,8 @@ type heapInfo struct {
 type ctx struct {
 	cellRootType map[int]types.Type
 	allocated    []term
+	allocFrom    int
+	siteCtx      string
 	knownLen     map[string]int
 	ghostConst   map[string]term
 	inInv        bool
@@ -196,6 +217,8 @@ type ctx struct {
 	spec     int
 	paths    int
 	skolem   map[string]val
+	skolemOv map[string]val // instantiation of universally valid facts: overrides a skolem variable
+	reqFacts []*univFact
 	params   map[string]val
 	pre      *state
 	errs     []string
@@ -754,11 +777,41 @@ func (x *ctx) sliceLen(st *state, ref term) term {
 	return term{fmt.Sprintf("(select %s %s)", a, ref.s), sInt}
 }
 
+// elemKey names the heap array holding the elements of all slices (and arrays) of one Go element type. Slices of
+// different element types cannot overlap (no unsafe conversions in the verified code), so they get separate arrays.
 func (x *ctx) elemKey(elem types.Type) string {
-	if s, ok := x.leafSort(elem); ok {
-		return "E:" + symName(s.name)
+	if _, ok := x.leafSort(elem); ok {
+		return "E:" + typeKeyName(elem)
 	}
 	return "E:" + structName(elem)
+}
+
+func typeKeyName(t types.Type) string {
+	switch u := t.(type) {
+	case *types.Basic:
+		return u.Name()
+	case *types.Named:
+		return u.Obj().Name()
+	case *types.Alias:
+		return typeKeyName(types.Unalias(u))
+	case *types.TypeParam:
+		return "T_" + u.Obj().Name()
+	case *types.Pointer:
+		return "ptr_" + typeKeyName(u.Elem())
+	case *types.Slice:
+		return "sl_" + typeKeyName(u.Elem())
+	case *types.Array:
+		return "arr_" + typeKeyName(u.Elem())
+	case *types.Map:
+		return "map"
+	case *types.Chan:
+		return "chan"
+	case *types.Signature:
+		return "func"
+	case *types.Interface:
+		return "iface"
+	}
+	return "other"
 }
 
 // ---------------------------------------------------------------- operands
@@ -972,6 +1025,7 @@ func (x *ctx) oblige(st *state, kind, tag, site, goal, note string) {
 	if site != "" {
 		name += "@" + site + ord
 	}
+	name += x.siteCtx
 	x.obls = append(x.obls, &obligation{Name: name, Kind: kind, Tag: tag, Site: site, Pc: st.pcStrings(), Goal: goal,
 		Sig: append([]string(nil), st.sig...), Decls: len(x.decls), Note: note})
 }
